@@ -14,6 +14,7 @@ From SZ Require Async.PartitionTOProofs.
 From SZ Require Async.MapAsyncProofs.
 From SZ Require Async.ZipBPProofs.
 From SZ Require Async.Plain.
+From SZ Require Base.BridgeRefCounter.
 Import ListNotations.
 
 (* from Async.BufferProofs *)
@@ -103,4 +104,20 @@ Theorem C04_plain_cb_early_refuted : exists (acts : list act) (s : nm_state plai
 Proof. exact (@plain_cb_early_refuted). Qed.
 End S_plain_cb_early_refuted_Plain.
 Print Assumptions C04_plain_cb_early_refuted.
+
+(* from Base.BridgeRefCounter *)
+Section S_bridge_rc_release_async_BridgeRefCounter.
+Import SZ.Base.BridgeRefCounter.
+Theorem C04_bridge_rc_release_async : forall (s : rcs) (r : nat) (n : Z), rcnt (rc_release1 s r n) r = fst (KRefCounter.gen_rc_release (rcnt s r) n) /\ rfired (rc_release1 s r n) = (if snd (KRefCounter.gen_rc_release (rcnt s r) n) then rfired s ++ [r] else rfired s).
+Proof. exact (@bridge_rc_release_async). Qed.
+End S_bridge_rc_release_async_BridgeRefCounter.
+Print Assumptions C04_bridge_rc_release_async.
+
+(* from Base.BridgeRefCounter *)
+Section S_bridge_rc_retain_async_BridgeRefCounter.
+Import SZ.Base.BridgeRefCounter.
+Theorem C04_bridge_rc_retain_async : forall (s : rcs) (r : nat) (n : Z), rcnt (rc_retain1 s r n) r = KRefCounter.gen_rc_retain (rcnt s r) n.
+Proof. exact (@bridge_rc_retain_async). Qed.
+End S_bridge_rc_retain_async_BridgeRefCounter.
+Print Assumptions C04_bridge_rc_retain_async.
 
